@@ -1,7 +1,7 @@
 import S2S.Proofs.RegistryChan
 /-!
-C08: no send ever reaches a closed channel outside a `recover` guard — under `ReplayOK`, the hypothesis
-that excludes window (iii) (`sendPendingWatermarkToShard` has no `recover`).
+C08: no send ever reaches a closed channel outside a `recover` guard.  Since `sendPendingWatermarkToShard` got its
+`recover` (fix of C08-replay-send-on-closed-channel) every send site is guarded, so this holds in EVERY interleaving.
 -/
 namespace S2S.Registry
 
@@ -13,11 +13,6 @@ def InvClosed (σ : State) : Prop :=
   ∀ t, (σ.inc t).closed = true →
     (σ.inc t).spc = .closed ∨ (σ.inc t).spc = .unreg ∨ (σ.inc t).spc = .rmChan ∨ (σ.inc t).spc = .done
 
-/-- while a sender is inside `RegisterShard` the shard's channel is its own; the channel it looked up for a replay is its own -/
-def InvReg (σ : State) : Prop :=
-  ∀ i, (σ.inc i).spc.registering = true →
-    aget σ.sendChans (σ.inc i).shard = some i ∧ ∀ todo t, (σ.inc i).spc = .notify todo (some t) → t = i
-
 set_option maxHeartbeats 1000000 in
 theorem invClosed_step {c σ a σ'} (h : step c σ a = some σ') (I : InvClosed σ) : InvClosed σ' := by
   cases a with
@@ -27,89 +22,18 @@ theorem invClosed_step {c σ a σ'} (h : step c σ a = some σ') (I : InvClosed 
     all_goals (try simp at ht ⊢)
     all_goals (first | exact I t ht | (have hI := I t; revert ht; crush))
 
-set_option maxHeartbeats 2000000 in
-theorem invReg_step {c σ a σ'} (h : step c σ a = some σ') (H : ReplayOK σ a) (B : InvBound σ) (I : InvReg σ) : InvReg σ' := by
-  cases a with
-  | sSet i =>
-    step_inv h
-    intro j hj
-    simp [aget_aset] at hj ⊢
-    by_cases hij : i = j
-    · subst hij; simp
-    · simp [hij] at hj ⊢
-      have hI := I j hj
-      refine ⟨?_, hI.2⟩
-      split
-      · -- another incarnation of the same shard is inside RegisterShard: excluded by the hypothesis
-        rename_i hs
-        have hjn : j < σ.next := lt_next_of_spc B (by intro h; rw [h] at hj; simp at hj)
-        have := H j hjn (fun e => hij e.symm) hs.symm
-        simp [hj] at this
-      · exact hI.1
-  | sRmChan i =>
-    step_inv h
-    all_goals (intro j hj)
-    all_goals (simp [aget_adel] at hj ⊢)
-    all_goals (by_cases hij : i = j)
-    all_goals (try (subst hij; simp at hj; done))
-    all_goals (simp [hij] at hj ⊢)
-    · have hI := I j hj
-      refine ⟨⟨?_, hI.1⟩, hI.2⟩
-      intro hs
-      have hown : aget σ.sendChans (σ.inc i).shard = some i := by assumption
-      rw [hs, hI.1] at hown; injection hown with e; exact hij e.symm
-    · exact I j hj
-  | sLook i r =>
-    step_inv h
-    all_goals (intro j hj)
-    all_goals (simp at hj ⊢)
-    all_goals (by_cases hij : i = j)
-    all_goals (try subst hij)
-    all_goals (simp_all)
-    all_goals (first | exact I _ hj | skip)
-    · have hI := I i (by simp_all)
-      refine ⟨hI.1, ?_⟩
-      intro _ t _ ht; rw [hI.1] at ht; injection ht with e; exact e.symm
-    · exact (I i (by simp_all)).1
-  | _ =>
-    step_inv h
-    all_goals (intro j hj)
-    all_goals (try simp at hj ⊢)
-    all_goals (first | exact I j hj | (have hI := I j; revert hj; crush))
-    all_goals (intro todo t h1 h2; simp_all)
-
-/-- **no crash**: with `recover` at the delivery and broadcast sites (current tree) and window (iii) excluded,
-    no step sends on a closed channel outside `recover` -/
+/-- **no crash**: with `recover` at every send site (current tree) no step sends on a closed channel outside `recover` -/
 theorem noCrash_step {c σ a σ'} (h : step c σ a = some σ') (hd : c.deliverRecover = true) (hb : c.bcastRecover = true)
-    (H : ReplayOK σ a) (S : InvSend σ) (C : InvClosed σ) (R : InvReg σ) (hc : σ.crashed = false) : σ'.crashed = false := by
+    (hr : c.replayRecover = true) (hc : σ.crashed = false) : σ'.crashed = false := by
   cases a with
   | deliverMsg t => step_inv h; rw [hd, sendOn_crashed_recover]; exact hc
   | bcast t => step_inv h; rw [hb, sendOn_crashed_recover]; exact hc
   | replay r sh =>
     step_inv h
-    · rename_i t ht
-      obtain ⟨h1, h2, h3, h4⟩ := S sh t ht
-      have hopen : (σ.inc t).closed = false := by
-        cases hcl : (σ.inc t).closed with
-        | false => rfl
-        | true =>
-          have := H t h1 h2
-          rcases C t hcl with e | e | e | e <;> simp [e] at this h4
-      rw [sendOn_crashed_open hopen]; exact hc
+    · rw [hr, sendOn_crashed_recover]; exact hc
     · exact hc
     · exact hc
-  | sSend i =>
-    step_inv h
-    rename_i todo t ht
-    have hR := R i (by simp [ht])
-    have e : t = i := hR.2 todo t ht
-    subst e
-    have hopen : (σ.inc t).closed = false := by
-      cases hcl : (σ.inc t).closed with
-      | false => rfl
-      | true => rcases C t hcl with e | e | e | e <;> simp [e] at ht
-    have : ((σ.setInc t { σ.inc t with spc := .notify todo none }).inc t).closed = false := by simp [hopen]
-    rw [sendOn_crashed_open this]; simpa using hc
+  | sSend i => step_inv h; rw [hr, sendOn_crashed_recover]; simpa using hc
   | _ =>
     step_inv h
     all_goals (try simp)
